@@ -43,6 +43,8 @@ struct FaultPlan {
     fail_write: Vec<(u64, bool)>,
     fail_fsync: Vec<(u64, bool)>,
     persistent_from_write: Option<u64>,
+    /// fail (before the bytes land) this many of the next journal-slot writes
+    fail_journal_writes: u64,
 }
 
 struct Recorder {
@@ -68,6 +70,8 @@ struct Recorder {
     /// after it has decided what to write and before any sector is published)
     data_write_delay_ms: AtomicU64,
     data_writes_started: AtomicU64,
+    /// apply the delay to this many more record writes only (u64::MAX = all)
+    slow_writes_left: AtomicU64,
     /// park the write batch whose first extent starts at this block between its allocation and
     /// the device lock (0 = none); `hold_state`: 0 idle, 1 parked, 2 released
     hold_sector: AtomicU64,
@@ -100,10 +104,22 @@ impl feoxdb::verif::io::Observer for Recorder {
                 if sector >= 16 && data.len() >= 2 && data[0] == 0xCD && data[1] == 0xAB {
                     self.data_writes_started.fetch_add(1, Ordering::SeqCst);
                     let d = self.data_write_delay_ms.load(Ordering::SeqCst);
-                    if d > 0 { std::thread::sleep(std::time::Duration::from_millis(d)); }
+                    let left = self.slow_writes_left.load(Ordering::SeqCst);
+                    if d > 0 && left > 0 {
+                        if left != u64::MAX { self.slow_writes_left.fetch_sub(1, Ordering::SeqCst); }
+                        std::thread::sleep(std::time::Duration::from_millis(d));
+                    }
                 }
                 let n = self.writes.fetch_add(1, Ordering::SeqCst) + 1;
-                let plan = self.plan.lock().unwrap().clone();
+                let plan = {
+                    let mut p = self.plan.lock().unwrap();
+                    if (1..7).contains(&sector) && p.fail_journal_writes > 0 && kind == IoKind::Write {
+                        p.fail_journal_writes -= 1;
+                        self.injected.fetch_add(1, Ordering::SeqCst);
+                        return Decision::FailBefore;
+                    }
+                    p.clone()
+                };
                 let mut d = Decision::Proceed;
                 if let Some((_, after)) = plan.fail_write.iter().find(|(k, _)| *k == n) {
                     d = if *after { Decision::FailAfter } else { Decision::FailBefore };
@@ -684,8 +700,12 @@ fn explore_crashes(rng: &mut Rng, out: &mut Out, rec: &Arc<Recorder>, w: &Worklo
                         }
                     }
                     if let Some(why) = check_window(w, &win, rv) {
-                        let prop = if why.contains("OLDER") || why.contains("absent") { "C02" } else { "C03" };
-                        out.fail(prop, format!("{} — crash after event {} ({}), un-synced writes: {}", why, upto, describe(trace, upto), vname), &keep);
+                        // (a state older than the acknowledged one breaks both the durability promise of C02 and
+                        // the "not older than the last acknowledged one" clause of C03)
+                        let props: &[&str] = if why.contains("OLDER") || why.contains("absent") { &["C02", "C03"] } else { &["C03"] };
+                        for prop in props {
+                            out.fail(prop, format!("{} — crash after event {} ({}), un-synced writes: {}", why, upto, describe(trace, upto), vname), &keep);
+                        }
                     }
                     // C04: open again without writing: same contents
                     let again = recover(&p, w.blocks);
@@ -1468,6 +1488,65 @@ fn hazard_run(rng: &mut Rng, out: &mut Out, rec: &Arc<Recorder>, dir: &str, idx:
     let _ = std::fs::remove_file(&path);
 }
 
+/// a long write-behind queue meets a failing journal write: the first record writes are slow, so
+/// thousands of accepted writes pile up behind the worker and the next pass has several
+/// 1024-entry transactions per shard; a few journal intent writes then fail.  Once the device
+/// works again and flush() says Ok, a recovery of the device as it stands must return every key.
+fn long_queue_fault_run(rng: &mut Rng, out: &mut Out, rec: &Arc<Recorder>, dir: &str, idx: u64) {
+    let nkeys = rng.range(9000, 13000);
+    let blocks = 16 + nkeys + 2048;
+    let path = format!("{}/longq{}.feox", dir, idx);
+    let _ = std::fs::remove_file(&path);
+    *rec.plan.lock().unwrap() = FaultPlan::default();
+    rec.log.lock().unwrap().clear();
+    rec.fd.store(-2, Ordering::SeqCst);
+    rec.enabled.store(true, Ordering::SeqCst);
+    let finish = |rec: &Arc<Recorder>| { *rec.plan.lock().unwrap() = FaultPlan::default(); rec.data_write_delay_ms.store(0, Ordering::SeqCst); rec.slow_writes_left.store(u64::MAX, Ordering::SeqCst); rec.enabled.store(false, Ordering::SeqCst); rec.fd.store(-1, Ordering::SeqCst); };
+    let Ok(store) = open_store(&path, blocks, false) else { finish(rec); return };
+    rec.slow_writes_left.store(rng.range(2, 6), Ordering::SeqCst);
+    rec.data_write_delay_ms.store(rng.range(40, 90), Ordering::SeqCst);
+    let mut want: BTreeMap<Vec<u8>, u64> = BTreeMap::new();
+    let fail_at = rng.range(nkeys / 4, nkeys / 2);
+    for i in 0..nkeys {
+        if i == fail_at { rec.plan.lock().unwrap().fail_journal_writes = rng.range(1, 3); }
+        let k = format!("q{}-{:06}", idx, i).into_bytes();
+        let vl = rng.range(20, 60) as usize;
+        let v = rng.bytes(vl);
+        if store.insert(&k, &v).is_ok() { want.insert(k, fnv(&v)); }
+    }
+    let first = store.flush();
+    let injected = rec.injected.load(Ordering::SeqCst);
+    // the device works again
+    *rec.plan.lock().unwrap() = FaultPlan::default();
+    rec.data_write_delay_ms.store(0, Ordering::SeqCst);
+    let mut healed = store.flush();
+    for _ in 0..3 { if healed.is_ok() { break; } healed = store.flush(); }
+    out.count("long-queue fault case");
+    out.count(if first.is_err() { "long-queue: the failing flush reported an error" } else { "long-queue: the faults were absorbed by retries" });
+    let _ = injected;
+    if healed.is_ok() {
+        let img = std::fs::read(&path).unwrap_or_default();
+        let p = write_image(dir, &format!("longq{}_copy.feox", idx), &img);
+        match recover(&p, blocks) {
+            Err(e) => { out.fail("C09", format!("long-queue fault case: the device as it stands after an acknowledged flush does not recover: {}", e), "-"); }
+            Ok(rv) => {
+                let missing: Vec<&Vec<u8>> = want.iter().filter(|(k, d)| rv.contents.get(*k).map(|x| x.0) != Some(**d)).map(|(k, _)| k).collect();
+                if !missing.is_empty() {
+                    let what = format!("long-queue fault case: {} keys were accepted, some journal writes failed while thousands of writes were queued, the device worked again and flush() returned Ok - but a recovery of the device as it stands lacks {} of them (first: {})", want.len(), missing.len(), String::from_utf8_lossy(missing[0]));
+                    out.fail("C09", what.clone(), "-");
+                    out.fail("C02", what, "-");
+                }
+            }
+        }
+        let _ = std::fs::remove_file(&p);
+    } else if !matches!(healed, Err(FeoxError::IndeterminateWrite(_))) {
+        out.fail("C09", format!("long-queue fault case: after the device works again flush() still fails: {:?}", healed.as_ref().err().map(err_name)), "-");
+    }
+    drop(store);
+    finish(rec);
+    let _ = std::fs::remove_file(&path);
+}
+
 fn writebehind_run(rng: &mut Rng, out: &mut Out, rec: &Arc<Recorder>, dir: &str, idx: u64) {
     let blocks = 256u64;
     let path = format!("{}/wb{}.feox", dir, idx);
@@ -1633,7 +1712,7 @@ fn main() {
     feoxdb::verif::proto::fast_shutdown(true);
     let rec = Arc::new(Recorder { log: Mutex::new(vec![]), enabled: AtomicBool::new(false), writes: AtomicU64::new(0), fsyncs: AtomicU64::new(0),
         plan: Mutex::new(FaultPlan::default()), injected: AtomicU64::new(0), fd: AtomicI64::new(-1),
-        visits: Mutex::new(Default::default()), ticks: Mutex::new(vec![]), alloc_fails: AtomicU64::new(0), drain_delay_ms: AtomicU64::new(0), drained: AtomicU64::new(0), data_write_delay_ms: AtomicU64::new(0), data_writes_started: AtomicU64::new(0), hold_sector: AtomicU64::new(0), hold_state: AtomicU64::new(0), hold_writes: AtomicU64::new(0) });
+        visits: Mutex::new(Default::default()), ticks: Mutex::new(vec![]), alloc_fails: AtomicU64::new(0), drain_delay_ms: AtomicU64::new(0), drained: AtomicU64::new(0), data_write_delay_ms: AtomicU64::new(0), data_writes_started: AtomicU64::new(0), slow_writes_left: AtomicU64::new(u64::MAX), hold_sector: AtomicU64::new(0), hold_state: AtomicU64::new(0), hold_writes: AtomicU64::new(0) });
     feoxdb::verif::io::set_observer(Some(rec.clone()));
     feoxdb::verif::proto::set_observer(Some(rec.clone()));
     let mut rng = Rng::new(args.seed);
@@ -1687,6 +1766,7 @@ fn main() {
         for i in 0..get("faults", 2) {
             fault_run(&mut rng, &mut out, &rec, &args.out.clone(), args.seed * 100 + i);
             stale_head_run(&mut rng, &mut out, &rec, &args.out.clone(), i);
+            if i == 0 { long_queue_fault_run(&mut rng, &mut out, &rec, &args.out.clone(), i); }
         }
     }
     if has("hazard") {
